@@ -73,6 +73,7 @@ func (x *ctx) appendOp(st *state, args []val, c *ssa.CallCommon) val {
 	sl := c.Args[0].Type().Underlying().(*types.Slice)
 	r := x.freshTerm("appended", sRef)
 	st.define(not(eq(r, null)))
+	x.assumeFreshRef(st, r)
 	oldLen := x.sliceLen(st, args[0].t)
 	st.define(x.binop(token.GEQ, oldLen, mkbv(0, 64), types.Typ[types.Int]).s)
 	addLen := x.sliceLen(st, args[1].t)
@@ -505,6 +506,11 @@ func (x *ctx) interfere(st *state) {
 		return
 	}
 	for _, k := range x.w.itfKeys {
+		if x.critical > 0 && (k == "G:calls" || k == "G:tbl") {
+			// inside a critical section of the node table the bucket lock of the key protects its entry in both
+			// tables (every writer of the call table entry runs under that lock); entries of other keys are not read there
+			continue
+		}
 		if _, ok := x.hinfo[k]; !ok && strings.HasPrefix(k, "G:") {
 			if stub := x.w.findStub("ghost_" + strings.TrimPrefix(k, "G:")); stub != nil {
 				x.ghostInfo("ghost_"+strings.TrimPrefix(k, "G:"), stub.Signature)
@@ -582,7 +588,13 @@ func (x *ctx) tableModel(st *state, fr *frame, op string, callee *ssa.Function, 
 		if isNodeTbl {
 			st.snaps["lp"] = st.clone()
 		}
+		if isNodeTbl {
+			x.critical++
+		}
 		outs := x.callValue(st, fr, args[2], []val{scalar(cur)}, nil, nil)
+		if isNodeTbl {
+			x.critical--
+		}
 		var res []outcome
 		for _, o := range outs {
 			if o.panic {
